@@ -18,7 +18,15 @@ pub fn cors_env(rng: &mut crate::util::Rng) -> Vec<(String, String)> {
     env.push(("RWS_CONFIG_CORS_ALLOW_METHODS".to_string(), pick_list(rng, &["GET", "POST", "PUT", "DELETE", "OPTIONS", "HEAD"])));
     env.push(("RWS_CONFIG_CORS_ALLOW_HEADERS".to_string(), pick_list(rng, &["content-type", "x-custom", "authorization", "x-requested-with"])));
     env.push(("RWS_CONFIG_CORS_EXPOSE_HEADERS".to_string(), pick_list(rng, &["content-length", "x-custom", "etag"])));
-    env.push(("RWS_CONFIG_CORS_ALLOW_CREDENTIALS".to_string(), if rng.chance(1, 2) { "true".into() } else { "false".into() }));
+    // documented values are true / false; anything else (also unset or empty, which is what
+    // start-up leaves there by default) must not grant credentials
+    match rng.below(8) {
+        0..=2 => env.push(("RWS_CONFIG_CORS_ALLOW_CREDENTIALS".to_string(), "true".into())),
+        3..=4 => env.push(("RWS_CONFIG_CORS_ALLOW_CREDENTIALS".to_string(), "false".into())),
+        5 => env.push(("RWS_CONFIG_CORS_ALLOW_CREDENTIALS".to_string(), String::new())),
+        6 => env.push(("RWS_CONFIG_CORS_ALLOW_CREDENTIALS".to_string(), rng.pick(&["yes", "0", "False", "off", "1"]).to_string())),
+        _ => {}
+    }
     env.push(("RWS_CONFIG_CORS_MAX_AGE".to_string(), rng.pick(&["86400", "600", "0", "5"]).to_string()));
     env
 }
@@ -46,8 +54,8 @@ pub fn c09_scenario(seed: u64, idx: u64) -> Scenario {
             let o = if !origins.is_empty() && rng.chance(2, 3) { origins[rng.below(origins.len())].clone() } else { "http://other.example".to_string() };
             hs.push(("Origin".into(), o));
             if rng.chance(1, 2) {
-                hs.push(("Access-Control-Request-Method".into(), "GET".into()));
-                hs.push(("Access-Control-Request-Headers".into(), "X-Custom".into()));
+                hs.push(("Access-Control-Request-Method".into(), rng.pick(&["GET", "POST", "PUT", "DELETE", "PATCH"]).to_string()));
+                hs.push(("Access-Control-Request-Headers".into(), rng.pick(&["X-Custom", "content-type", "X-Custom, Content-Type", "x_request_id", "x-amz-meta.owner, authorization", "X-A,X-B,x_c", "x~tilde, x!bang"]).to_string()));
             }
         }
         if rng.chance(1, 4) {
@@ -117,7 +125,14 @@ pub fn c11_scenario(seed: u64, idx: u64) -> Scenario {
             }
         }
         let hs2: Vec<(&str, &str)> = hs.iter().map(|(a, b)| (a.as_str(), b.as_str())).collect();
-        sc.conns.push(Conn::simple(i, if rng.chance(1, 2) { 0 } else { i as u32 }, req(method, target, &hs2, b""), "cors"));
+        let mut bytes = req(method, target, &hs2, b"");
+        let mut class = "cors";
+        if hs2.iter().all(|(n, _)| *n != "Origin") && rng.chance(1, 2) {
+            // a short request without Origin whose head lacks the final blank line
+            bytes = format!("{} {} HTTP/1.1\r\nHost: h\r\n", method, target).into_bytes();
+            class = "cors_no_origin_unterminated_head";
+        }
+        sc.conns.push(Conn::simple(i, if rng.chance(1, 2) { 0 } else { i as u32 }, bytes, class));
     }
     sc
 }
@@ -219,10 +234,30 @@ pub fn c13_scenario(seed: u64, idx: u64) -> Scenario {
     t.entries.push(Entry { path: "outer/sentinel.txt".into(), kind: EntryKind::File(Content::Literal("sentinel\n".into())) });
     t.entries.push(Entry { path: "sibling/sentinel.txt".into(), kind: EntryKind::File(Content::Literal("sentinel\n".into())) });
     t.entries.push(Entry { path: "outer/root/emptydir".into(), kind: EntryKind::Dir });
+    // symbolic links of every shape an owner may place: to files, to directories, relative with
+    // '..', through another link, dangling, leaving the root
+    t.entries.push(Entry { path: "outer/root/real/target.txt".into(), kind: EntryKind::File(Content::Literal("target\n".into())) });
+    t.entries.push(Entry { path: "outer/root/real/sub/alias.txt".into(), kind: EntryKind::Symlink("../target.txt".into()) });
+    t.entries.push(Entry { path: "outer/root/real/sub/index.html".into(), kind: EntryKind::File(Content::Literal("<p>sub</p>\n".into())) });
+    t.entries.push(Entry { path: "outer/root/shortcut".into(), kind: EntryKind::Symlink("real/sub".into()) });
+    t.entries.push(Entry { path: "outer/root/ln.txt".into(), kind: EntryKind::Symlink("file.txt".into()) });
+    t.entries.push(Entry { path: "outer/root/ln2.txt".into(), kind: EntryKind::Symlink("./ln.txt".into()) });
+    t.entries.push(Entry { path: "outer/root/dangling.txt".into(), kind: EntryKind::Symlink("nowhere.txt".into()) });
+    t.entries.push(Entry { path: "outer/root/dangling-up.txt".into(), kind: EntryKind::Symlink("../../nowhere/x.txt".into()) });
+    t.entries.push(Entry { path: "outer/root/out.txt".into(), kind: EntryKind::Symlink("../sentinel.txt".into()) });
+    t.entries.push(Entry { path: "outer/root/slashes.txt".into(), kind: EntryKind::Symlink("real//target.txt".into()) });
     sc.tree = t;
     let n = rng.range(1, 6);
     for i in 0..n {
-        let (class, bytes) = if rng.chance(3, 5) { ("upload_shaped", upload_shaped(&mut rng)) } else { mutated_request(&mut rng, "/file.txt", sc.request_size as usize) };
+        let (class, bytes) = match rng.below(10) {
+            0..=4 => ("upload_shaped", upload_shaped(&mut rng)),
+            5 | 6 => {
+                let p = *rng.pick(&["/shortcut/alias.txt", "/shortcut/", "/shortcut", "/real/sub/alias.txt", "/ln.txt", "/ln2.txt", "/dangling.txt", "/dangling-up.txt", "/out.txt", "/slashes.txt", "/emptydir/", "/emptydir"]);
+                let m = *rng.pick(&["GET", "GET", "HEAD", "OPTIONS", "POST"]);
+                if rng.chance(1, 3) { ("symlink_path", req(m, p, &[("Range", *rng.pick(&["bytes=0-2", "bytes=1-", "bytes=0-1,3-4", "bytes=-2"]))], b"")) } else { ("symlink_path", req(m, p, &[], b"")) }
+            }
+            _ => mutated_request(&mut rng, "/file.txt", sc.request_size as usize),
+        };
         let mut c = Conn::simple(i, i as u32, if bytes.is_empty() { b"G".to_vec() } else { bytes }, class);
         if rng.chance(1, 6) {
             transport_fault(&mut rng, &mut c, &["seg", "read_err", "short_write", "write_err", "client_gone", "handler_err"]);
